@@ -213,7 +213,7 @@ pub fn run(ctx: &Ctx) -> i32 {
     // judge: absolute a-priori bounds and independence from N
     for (name, rows) in &per_op {
         let k = name.split("k=").nth(1).and_then(|s| s.parse::<u64>().ok()).unwrap_or(0);
-        let bound = 16 * 1024 + k * 4 * 1024; // L = 10: far above the code's initial capacities (16-byte key buffer, 64-byte slot buffers)
+        let bound = 256 * 1024 + k * 64 * 1024; // a generous constant for L = 10; linear growth is caught by the scale comparison below, not by this
         for (n, r, items) in rows {
             if r.peak > bound {
                 ev.violate("above-constant-bound", format!("{} at N={}: peak live heap {} bytes exceeds {} bytes", name, n, r.peak, bound), J::s(name.clone()));
@@ -241,7 +241,7 @@ pub fn run(ctx: &Ctx) -> i32 {
         ev,
         Spec {
             level: "exploration",
-            rule: "one evaluation = one complete traversal (or lookup section) of an FST with N 10-byte keys under the counting global allocator (single-threaded): full stream, range over 90%, search(Subsequence), search(dfa) with lower bound, search_with_state, Map stream/keys/values, and union/intersection/difference/symmetric_difference over k in {2,3,5,8} streams (FSTs and range streams); peak live heap must stay under 16 KiB + k*4 KiB, must not exceed the N=10^4 value by more than 25% + 256 B at N=10^5, 10^6 (thorough 10^7), and the NUMBER of allocations must not grow with N (<= +4); Fst::new over &[u8], Map::new, Fst::new over a memory map and 10^5 get/contains_key probes (hits and misses) must perform exactly 0 allocations; non-trivial = every measurement; distinct = (operation, N)",
+            rule: "one evaluation = one complete traversal (or lookup section) of an FST with N 10-byte keys under the counting global allocator (single-threaded): full stream, range over 90%, search(Subsequence), search(dfa) with lower bound, search_with_state, Map stream/keys/values, and union/intersection/difference/symmetric_difference over k in {2,3,5,8} streams (FSTs and range streams); peak live heap must stay under the generous constant 256 KiB + k*64 KiB, must not exceed the N=10^4 value by more than 25% + 256 B at N=10^5, 10^6 (thorough 10^7), and the NUMBER of allocations must not grow with N (<= +4); Fst::new over &[u8], Map::new, Fst::new over a memory map and 10^5 get/contains_key probes (hits and misses) must perform exactly 0 allocations; non-trivial = every measurement; distinct = (operation, N)",
             assumptions: vec!["the restated, decidable claim is bounded scales, not 'for all N'".into(), "constants are fixed a priori from the code's initial capacities with generous slack, not fitted".into()],
             floors: vec![("measurements", 60), ("scale-pairs-compared", 40), ("zero-alloc-sections", 6)],
             exhaustive: Some(false),
